@@ -348,6 +348,8 @@ Definition site_table : list site := [
   St "contrib/client_forward_refs.py" "ClientForwardRefsPlugin.__init__" "construct" "set()" SkNone "";
   St "contrib/client_forward_refs.py" "ClientForwardRefsPlugin._add_forward_ref_imports" "iter" "self.input_and_return_types" SkIsort
     "names and statements of the `if TYPE_CHECKING:` imports; isort re-sorts the indented block";
+  St "contrib/client_forward_refs.py" "ClientForwardRefsPlugin._add_forward_ref_imports" "sorted" "self.input_and_return_types" SkSorted
+    "the proposed fix";
   St "contrib/client_forward_refs.py" "ClientForwardRefsPlugin._update_existing_imports" "member" "return_types_not_used_as_input" SkMember "";
   St "contrib/client_forward_refs.py" "ClientForwardRefsPlugin._update_imports" "arg" "return_types_not_used_as_input" SkMember
     "flows into _update_existing_imports, which only tests membership";
@@ -358,8 +360,14 @@ Definition site_table : list site := [
     "extra names appended to an existing from-import of the client module";
   St "contrib/shorter_results.py" "ShorterResultsPlugin.generate_client_module" "iter:list" "alias" SkIsort
     "names of a new from-import of the client module";
+  St "contrib/shorter_results.py" "ShorterResultsPlugin.generate_client_module" "sorted" "self.extended_imports[stmt.module]" SkSorted
+    "the proposed fix";
+  St "contrib/shorter_results.py" "ShorterResultsPlugin.generate_client_module" "sorted" "alias" SkSorted "the proposed fix";
   St "schema.py" "add_mixin_directive_to_schema" "construct" "{d.name for d in schema.directives}" SkNone "";
   St "schema.py" "add_mixin_directive_to_schema" "member" "{d.name for d in schema.directives}" SkMember "";
+  St "schema.py" "load_graphql_files_from_path" "sorted" "walk_graphql_files(path)" SkSorted "load_dir";
+  St "schema.py" "walk_graphql_files" "iter" "path.glob('**/*')" SkSorted
+    "a generator: yields in listing order, the only caller sorts the paths (load_dir)";
   St "schema.py" "walk_graphql_files" "listing" "path.glob('**/*')" SkSorted
     "the only caller sorts the paths (load_dir)";
   St "settings.py" "ClientSettings" "ambient" "Path.cwd()" SkInput "default target_package_path";
